@@ -15,7 +15,7 @@ from harness import pyast_wire as W
 
 META = {
     "id": "C02",
-    "technique": "Coq proof (soundness of a line-by-line model of _infer_expr_type w.r.t. the reference Python expression semantics, by induction over expressions and over nested list comprehensions with their var_types bracket; join / declaration / hoisting / signature-alias lemmas; a reference statement semantics with a path oracle and, by mutual induction over statements / blocks / branches, the covering theorem for if / elif / else, while, for, tuple assignment, the main loop and function bodies under an executable fixed-point guard; refutation witnesses by vm_compute) + extracted-model correspondence with the real _infer_expr_type/_cpp_type/_merge_* and with the declaration lines of the emitted C++ + firmware-vs-CPython value oracle",
+    "technique": "Coq proof (C++ name lookup over the emitted prototype block + overload resolution: the overload a call reaches is position independent and is the variant the parser specialised, under call_guard; soundness of a line-by-line model of _infer_expr_type w.r.t. the reference Python expression semantics, by induction over expressions and over nested list comprehensions with their var_types bracket; join / declaration / hoisting / signature-alias lemmas; a reference statement semantics with a path oracle and, by mutual induction over statements / blocks / branches, the covering theorem for if / elif / else, while, for, tuple assignment, the main loop and function bodies under an executable fixed-point guard; refutation witnesses by vm_compute) + extracted-model correspondence with the real _infer_expr_type/_cpp_type/_merge_* and with the declaration lines of the emitted C++ + firmware-vs-CPython value oracle",
     "level_text": "Theorems C02_* (coq/Props/C02.v) are proved for all expressions, all statement trees (if / elif / else, while, for, tuple assignment, returns at any depth), all paths (every oracle of branch choices and loop counts) and all parser states about Gallina models (coq/Lang/Infer.v, Decl.v, StmtRef.v) of the type-label layer of transpile/parser.py; _partial theorems carry an executable guard, each guard clause has a _refuted witness. The models are run against the real functions (direct calls, exact label and mutated var_types) and against the declared C types in the emitted sketch; the property itself is tested on compiled firmware (mock core) against CPython for programs inside the guard.",
     "level_note": "Trusted: Coq kernel, extraction (ExtrOcamlBasic), OCaml driver, translator plug-in harness/gen/c02_infer.py (builtin call table), harness codecs, g++ and the mock Arduino core as 'device', CPython 3.12 as 'Python', PySem.v as the reference expression semantics (validated against CPython's eval). The theorems are about the models; the correspondence bounds their distance from parser.py.",
     "design_ref": "DESIGN.md section 4 C02, Appendix B.1-B.4",
@@ -705,6 +705,14 @@ FIXED_PROGRAMS = [
     [("def", "f", ["p"], [("return", "p")]), ("def", "g", ["p", "q"], [("assign", "w", "f(q)"), ("return", "w + f(p)")]),
      ("def", "h", ["p"], [("for", "i", "2", [("assign", "z", "g(p, i)")]), ("return", "g(p, 0.5)")]),
      ("stmt", ("assign", "s", "'x'")), ("stmt", ("assign", "a", "h(1)")), ("stmt", ("assign", "b", "h(2.5)")), ("stmt", ("assign", "c", "f(s)"))],
+    # callers defined ABOVE the helper they call: the helper gets a variant from the caller's def-time parse (int), more from the
+    # real calls (float, bool), directly and through another helper; the def-time variant of the caller keeps its int typing
+    [("def", "g", ["p"], [("return", "f(p) + 1")]), ("def", "f", ["p"], [("return", "p * 2")]),
+     ("stmt", ("assign", "x", "1.5")), ("stmt", ("assign", "a", "g(x)")), ("stmt", ("assign", "b", "f(3)")), ("stmt", ("assign", "c", "g(True)"))],
+    [("def", "h", ["p"], [("assign", "w", "g(p)"), ("return", "w * 2")]), ("def", "g", ["p"], [("return", "f(p, 1) + f(p, p)")]),
+     ("def", "f", ["p", "q"], [("return", "p + q")]), ("stmt", ("assign", "x", "1.5")), ("stmt", ("assign", "a", "h(x)")),
+     ("stmt", ("assign", "b", "h(3)")), ("stmt", ("assign", "c", "g(True)")), ("stmt", ("assign", "d", "f(x, x)"))],
+    [("def", "g", ["p"], [("return", "f(p) + 1")]), ("def", "f", ["p"], [("return", "p * 0.5")]), ("stmt", ("assign", "a", "g(3)"))],
     # tuple assignments: all-new names at column 0 (globals, no temporaries), a swap, mixed new/old, inside a block,
     # in a def, in the main loop, one name twice
     [("stmt", ("tassign", ["a", "b", "s"], ["1", "2.5", "'x'"])), ("stmt", ("tassign", ["a", "b"], ["b", "a"])),
@@ -1274,6 +1282,7 @@ WITNESSES = {
     "F-C02-stale-promotion-type": {"body": "mode = 2\nif mode > 1:\n    gain = 1.5\nelse:\n    gain = 0.5\ndef f(p):\n    if p > 1:\n        out = 1\n    else:\n        out = 2\n    return out\ndef g(p):\n    k = 0\n    while k < 2:\n        out = p * 0.5\n        k = k + 1\n    return out\na = f(3)\nb = g(3)\nmon.write(a)\nmon.write(b)\n", "loops": 0},
     "F-C02-param-declared-from-last-label": {"body": "def f(p):\n    q = p * 2\n    p = 1\n    return q\nx = 2.5\na = f(x)\nmon.write(a)\n", "loops": 0},
     "F-C02-read-before-typed": {"body": "k = 0\nwhile k < 2:\n    if k > 0:\n        b = z\n        mon.write(b)\n    z = 2.5\n    k = k + 1\n", "loops": 0},
+    "F-C02-forward-call-result-typed-int": {"body": "def scaled(x):\n    return twice(x) + 1\ndef twice(v):\n    return v * 0.5\nw = scaled(3)\nmon.write(w)\n", "loops": 0},
     "F-C02-widened-variant-overwritten": {"body": "def blend(a, b):\n    w = a * 2\n    a = a + b\n    return a + w\nx = 0.75\ny = 0.25\np = blend(x, y)\nq = blend(1, y)\nmon.write(p)\nmon.write(q)\n", "loops": 0},
 }
 
@@ -1376,7 +1385,8 @@ def part_d(ctx, stats):
               "cpython_raises": undefined, "programs_with_main_loop": sum(1 for l in loops if l)})
     stats["function_programs"] = d
     stats["function_distinct_nontrivial"] = len(nontrivial)
-    return len(progs) + values, [srcs[nfixed][len(HEADER):]]
+    sketches = [(src, r["cpp"]) for src, r in zip(srcs, res) if r.get("cpp")]
+    return len(progs) + values, [srcs[nfixed][len(HEADER):]], sketches
 
 
 # --------------------------------------------------------------------------- part (e): control-flow scripts
@@ -1590,16 +1600,340 @@ def part_f(ctx, stats):
     return len(progs) + st["events_compared"] + st["values_compared"], [plain[1][0][len(HEADER):]]
 
 
+
+# --------------------------------------------------------------------------- part (g): which overload a call reaches
+CXX_T = {"int": "int", "float": "float", "bool": "bool", "String": "String", "double": "double"}
+RE_PROTO = re.compile(r"^(int|float|bool|String|void|__redu_list<[\w<>]+>)\s+([A-Za-z_]\w*)\s*\((.*)\)\s*;\s*$")
+RE_FDEF = re.compile(r"^(int|float|bool|String|void|__redu_list<[\w<>]+>)\s+([A-Za-z_]\w*)\s*\((.*)\)\s*\{\s*$")
+RE_VDECL = re.compile(r"^\s*(int|float|bool|String|__redu_list<[\w<>]+>)\s+([A-Za-z_]\w*)\s*(?:=.*)?;\s*$")
+
+
+def enc_aty(t):
+    return [7] if t == "double" else enc_ctype(t)
+
+
+def _ptypes(txt):
+    txt = txt.strip()
+    if not txt:
+        return [], []
+    tys, names = [], []
+    for part in txt.split(","):
+        bits = part.strip().rsplit(None, 1)
+        if len(bits) != 2:
+            return None, None
+        tys.append(bits[0].strip())
+        names.append(bits[1].strip())
+    return tys, names
+
+
+def sketch_layout(cpp):
+    """what the C++ compiler sees of the user functions of an emitted sketch, in text order: the prototype lines written in
+    front of the first body, then every definition (name, parameter types, names typed inside it, body text)"""
+    protos, defs, globs = [], [], {}
+    cur = None
+    for line in cpp.splitlines():
+        if cur is None:
+            m = RE_FDEF.match(line)
+            if m and m.group(2) not in ("setup", "loop") and not m.group(2).startswith("__redu_"):
+                tys, names = _ptypes(m.group(3))
+                if tys is None:
+                    continue
+                cur = {"name": m.group(2), "ret": m.group(1), "ptypes": tys, "vars": dict(zip(names, tys)), "body": []}
+                continue
+            if m:
+                cur = {"skip": True}
+                continue
+            m = RE_PROTO.match(line)
+            if m and not m.group(2).startswith("__redu_"):
+                tys, _ = _ptypes(m.group(3))
+                if tys is not None:
+                    protos.append({"name": m.group(2), "ret": m.group(1), "ptypes": tys, "before_first_body": not defs})
+                continue
+            m = RE_VDECL.match(line)
+            if m and not line.startswith(" "):
+                globs[m.group(2)] = m.group(1)
+        else:
+            if line.startswith("}"):
+                if "skip" not in cur:
+                    defs.append(cur)
+                cur = None
+                continue
+            if "skip" in cur:
+                continue
+            cur["body"].append(line)
+            m = RE_VDECL.match(line)
+            if m:
+                cur["vars"].setdefault(m.group(2), m.group(1))
+    return {"protos": protos, "defs": defs, "globals": globs}
+
+
+def call_sites(layout):
+    """calls of user functions written inside the bodies of the emitted definitions whose arguments are names or literals:
+    (index of the enclosing definition, callee, C++ argument types)"""
+    names = {d["name"] for d in layout["defs"]}
+    if not names:
+        return []
+    rx = re.compile(r"\b(" + "|".join(sorted(names)) + r")\(([^()]*)\)")
+    out = []
+    for i, d in enumerate(layout["defs"]):
+        for line in d["body"]:
+            for m in rx.finditer(line):
+                args = [a.strip() for a in m.group(2).split(",")] if m.group(2).strip() else []
+                tys = []
+                for a in args:
+                    if a in d["vars"]:
+                        tys.append(d["vars"][a])
+                    elif a in layout["globals"]:
+                        tys.append(layout["globals"][a])
+                    elif a in ("true", "false"):
+                        tys.append("bool")
+                    elif re.fullmatch(r"-?\d+", a):
+                        tys.append("int")
+                    elif re.fullmatch(r"-?\d+\.\d*f", a):
+                        tys.append("float")
+                    elif re.fullmatch(r"-?\d+\.\d*(e-?\d+)?", a):
+                        tys.append("double")
+                    else:
+                        tys = None
+                        break
+                if tys is not None and all(t in CXX_T for t in tys):
+                    out.append((i, m.group(1), tys))
+    return out
+
+
+NARROW = {("float", "int"), ("float", "bool"), ("double", "int"), ("double", "bool"), ("int", "bool")}
+
+
+def overload_probe_sketch(cases):
+    """one sketch asking g++ which overload it selects: case k = (candidate parameter lists, argument types);
+    prints the index of the selected candidate, -1 when the call is ill-formed (no viable function / ambiguous)"""
+    out = ["#include <Arduino.h>\n", "template<int K> struct RvTag { enum { id = K }; };\n",
+           "struct RvNone { enum { id = -1 }; };\n", "template<class T> T rv_mk();\n"]
+    for k, (cands, args) in enumerate(cases):
+        out.append(f"namespace rvc{k} {{\n")
+        for j, c in enumerate(cands):
+            out.append(f"  RvTag<{j}> f({', '.join(CXX_T[t] for t in c)});\n")
+        tps = ", ".join(f"class RvA{i}" for i in range(len(args))) or "class RvZ"
+        call = ", ".join(f"rv_mk<RvA{i}>()" for i in range(len(args)))
+        if args:
+            out.append(f"  template<{tps}> auto probe(int) -> decltype(f({call}));\n")
+            out.append(f"  template<{tps}> RvNone probe(long);\n")
+        else:
+            out.append(f"  template<{tps}> auto probe(int) -> decltype(f());\n  template<{tps}> RvNone probe(long);\n")
+        out.append("}\n")
+    out.append("void setup() {\n  Serial.begin(9600);\n")
+    for k, (cands, args) in enumerate(cases):
+        targs = ", ".join(CXX_T[t] for t in args) or "int"
+        out.append(f"  Serial.println(static_cast<int>(decltype(rvc{k}::probe<{targs}>(0))::id));\n")
+    out.append("}\nvoid loop() {}\n")
+    return "".join(out)
+
+
+FWD_FIXED = [
+    # (items, [(function, call signature labels)]): callers above their helper, the helper with 2 / 3 variants, a widened alias
+    ([("def", "sc", ["p"], [("return", "tw(p) + 1")]), ("def", "tw", ["p"], [("return", "p * 2")]),
+      ("stmt", ("assign", "x", "1.5")), ("stmt", ("assign", "w", "sc(x)")), ("stmt", ("assign", "a", "tw(3)"))],
+     [("tw", ["float"], True, ("sc", ["float"])), ("tw", ["int"]), ("sc", ["float"])]),
+    ([("def", "top", ["p"], [("assign", "w", "mid(p)"), ("return", "w * 2")]),
+      ("def", "mid", ["p"], [("return", "low(p, 1) + low(p, p)")]), ("def", "low", ["p", "q"], [("return", "p + q")]),
+      ("stmt", ("assign", "x", "1.5")), ("stmt", ("assign", "b", "True")), ("stmt", ("assign", "r1", "top(x)")),
+      ("stmt", ("assign", "r2", "top(b)")), ("stmt", ("assign", "r3", "mid(3)")), ("stmt", ("assign", "r4", "low(x, x)"))],
+     [("low", ["float", "int"], True, ("mid", ["float"])), ("low", ["float", "float"], True, ("mid", ["float"])),
+      ("low", ["bool", "int"], True, ("mid", ["bool"])), ("low", ["bool", "bool"], True, ("mid", ["bool"])), ("low", ["int", "int"], True, ("mid", ["int"])),
+      ("mid", ["float"], True, ("top", ["float"])), ("mid", ["bool"], True, ("top", ["bool"])), ("mid", ["int"]), ("top", ["float"]), ("top", ["bool"])]),
+    # a parameter widened by the body: half(2) is requested as (int), emitted as (float) and reached by conversion (only candidate)
+    ([("def", "use", ["p"], [("return", "half(p) + 1")]), ("def", "half", ["p"], [("assign", "p", "p * 0.5"), ("return", "p")]),
+      ("stmt", ("assign", "x", "0.5")), ("stmt", ("assign", "a", "use(x)")), ("stmt", ("assign", "c", "half(2)"))],
+     [("half", ["int"]), ("half", ["float"], True, ("use", ["float"])), ("use", ["float"])]),
+    # outside the guard (F-C06-overload-ambiguous region): blend(int, float) is widened to (float, float) while the def-time parse of
+    # `use` also makes a (int, int) variant: one argument converts each way, the call is ambiguous
+    ([("def", "use", ["p", "q"], [("return", "blend(p, q) + blend(q, q)")]),
+      ("def", "blend", ["p", "q"], [("assign", "p", "p + q"), ("return", "p")]),
+      ("stmt", ("assign", "x", "0.5")), ("stmt", ("assign", "a", "use(1, x)")), ("stmt", ("assign", "c", "blend(2, x)"))],
+     [("blend", ["int", "float"], False), ("blend", ["float", "float"]), ("use", ["int", "float"])]),
+]
+
+
+def part_g(ctx, stats, sketches):
+    """(g1) the overload-resolution model (Lang/FnProto.v pick) vs g++ itself on candidate sets over int/float/bool/String and
+    argument types incl. double; (g2) the layout of every emitted sketch of oracle (d): the prototype block the model says
+    emit() writes vs the real one, and every call site written inside a body: overload reached among the declarations REALLY
+    visible there vs among all emitted variants; (g3) call_guard / emission order of the model vs the real sketch on fixed
+    programs with callers above their helper."""
+    rng = ctx.rng
+    thorough = ctx.tier == "thorough"
+    st = {"gxx_cases": 0, "gxx_selected": 0, "gxx_ill_formed": 0, "sketches": 0, "sketches_with_user_functions": 0,
+          "prototype_lines": 0, "definitions": 0, "call_sites_in_bodies": 0, "call_sites_above_their_callee": 0,
+          "call_sites_with_a_converted_argument": 0, "fixed_forward_programs": 0, "call_guard_true": 0, "call_guard_false": 0}
+    # ---- (g1)
+    P1 = ["int", "float", "bool", "String"]
+    A1 = ["int", "float", "bool", "String", "double"]
+    cases = []
+    for n in range(1, 5):
+        for cs in itertools.combinations(P1, n):
+            for a in A1:
+                cases.append(([[c] for c in cs], [a]))
+    P2 = [[a, b] for a in ("int", "float", "bool") for b in ("int", "float", "bool")]
+    A2 = [[a, b] for a in ("int", "float", "bool", "double") for b in ("int", "float", "bool", "double")]
+    sets2 = [[c] for c in P2]
+    all2 = [list(cs) for n in (2, 3) for cs in itertools.combinations(P2, n)]
+    sets2 += all2 if thorough else rng.sample(all2, 45)
+    for cs in sets2:
+        for a in A2:
+            cases.append((cs, a))
+    cases += [([[], ["int"]], []), ([[], ["int"]], ["float"]), ([["int"], ["int", "int"]], ["float"]), ([["int"], ["int", "int"]], ["bool", "double"]),
+              ([["int", "String"], ["float", "String"]], ["float", "String"]), ([["int", "String"], ["float", "String"]], ["double", "String"])]
+    if thorough:
+        P3 = [[a, b, c] for a in ("int", "float", "bool") for b in ("int", "float", "bool") for c in ("int", "float")]
+        for _ in range(150):
+            cs = rng.sample(P3, rng.choice([2, 3, 4]))
+            for _ in range(4):
+                cases.append((cs, [rng.choice(["int", "float", "bool", "double"]) for _ in range(3)]))
+    chunks = [cases[i:i + 300] for i in range(0, len(cases), 300)]           # small sketches: no verdict depends on compile time
+    results = fw.run_sketches([{"cpp": overload_probe_sketch(ch), "input": "", "loops": 0} for ch in chunks])
+    for ch, res in zip(chunks, results):
+        if res.get("compile_log") == "compiler timeout" or res.get("rc") == "timeout":
+            st["gxx_probe_timeouts"] = st.get("gxx_probe_timeouts", 0) + 1      # machine overloaded: not compared, counted
+            continue
+        if not res["compiled"] or res["rc"] != 0:
+            ctx.disagree("harness self-check: the overload probe sketch does not compile / run", "overload_probe_sketch", "compiles", res.get("compile_log", "")[-600:])
+            continue
+        got = [int(e[2:]) for e in res["events"] if e.startswith("S ")]
+        if len(got) != len(ch):
+            ctx.disagree("harness self-check: overload probe printed another number of lines", len(ch), len(ch), len(got))
+        elif ctx.exe:
+            wire = [[14, [], [["f", [enc_ctype(t) for t in c]] for c in cs], [1], "f", [enc_aty(a) for a in args]] for cs, args in ch]
+            for (cs, args), g_, m in zip(ch, got, ctx.model(wire)):
+                st["gxx_cases"] += 1
+                st["gxx_selected" if g_ >= 0 else "gxx_ill_formed"] += 1
+                exp = None if not m[1] else [dec_ctype(t) for t in m[1][0]]
+                real = None if g_ < 0 else cs[g_]
+                if exp != real:
+                    ctx.disagree("C++ overload resolution: g++ selects another candidate than Lang/FnProto.v pick", {"candidates": cs, "arguments": args},
+                                 exp, real)
+    # ---- (g2)
+    wire, meta = [], []
+    for script, cpp in sketches:
+        st["sketches"] += 1
+        lay = sketch_layout(cpp)
+        if not lay["defs"]:
+            continue
+        st["sketches_with_user_functions"] += 1
+        st["prototype_lines"] += len(lay["protos"])
+        st["definitions"] += len(lay["defs"])
+        defs_w = [[d["name"], [enc_ctype(t) for t in d["ptypes"]]] for d in lay["defs"]]
+        protos_w = [[d["name"], [enc_ctype(t) for t in d["ptypes"]]] for d in lay["protos"] if d["before_first_body"]]
+        wire.append([15, defs_w])
+        meta.append(("protos", script, lay, None))
+        order = [d["name"] for d in lay["defs"]]
+        for i, f, tys in call_sites(lay):
+            st["call_sites_in_bodies"] += 1
+            if min(j for j, d in enumerate(lay["defs"]) if d["name"] == f) > i:
+                st["call_sites_above_their_callee"] += 1
+            wire.append([14, protos_w, defs_w, [0, i], f, [enc_aty(t) for t in tys]])
+            meta.append(("site-real", script, lay, (i, f, tys)))
+            wire.append([14, defs_w, defs_w, [1], f, [enc_aty(t) for t in tys]])
+            meta.append(("site-all", script, lay, (i, f, tys)))
+    if ctx.exe and wire:
+        out = ctx.model(wire)
+        k = 0
+        while k < len(out):
+            kind_, script, lay, site = meta[k]
+            if kind_ == "protos":
+                exp = sorted((C.wstr(d[0]), tuple(dec_ctype(t) for t in d[1])) for d in out[k])
+                real = sorted((d["name"], tuple(d["ptypes"])) for d in lay["protos"] if d["before_first_body"])
+                if exp != real:
+                    ctx.disagree("layout of the sketch: the prototype block in front of the first function body is not one prototype per emitted "
+                                 "definition (Lang/FnProto.v emit_sketch)", {"script": script}, exp, real)
+                rets = {(d["name"], tuple(d["ptypes"])): d["ret"] for d in lay["defs"]}
+                for d in lay["protos"]:
+                    if rets.get((d["name"], tuple(d["ptypes"])), d["ret"]) != d["ret"]:
+                        ctx.disagree("layout of the sketch: a prototype declares another return type than its definition", {"script": script}, rets, d)
+                k += 1
+                continue
+            (i, f, tys) = site
+            real_pick = None if not out[k][1] else [dec_ctype(t) for t in out[k][1][0]]
+            all_pick = None if not out[k + 1][1] else [dec_ctype(t) for t in out[k + 1][1][0]]
+            if all_pick is not None and all_pick != tys:
+                st["call_sites_with_a_converted_argument"] += 1
+            if real_pick != all_pick:
+                narrowed = real_pick is not None and any((a, p_) in NARROW for a, p_ in zip(tys, real_pick))
+                ok_all = all_pick is not None and not any((a, p_) in NARROW for a, p_ in zip(tys, all_pick))
+                case = {"script": script, "call": f"{f}({', '.join(tys)}) inside the body of {lay['defs'][i]['name']}({', '.join(lay['defs'][i]['ptypes'])})",
+                        "declarations_visible_there": [dec_ctype_list(c) for c in out[k][0]]}
+                if narrowed and ok_all:
+                    ctx.fail("a call written in a function body emitted above its helper reaches a variant whose parameter narrows the argument "
+                             "(the variant that holds the value is emitted but not declared above the call)", case,
+                             {"variant_reached_among_all_emitted": all_pick}, {"variant_reached_where_the_call_is_written": real_pick},
+                             key="call-narrowed-above")
+                else:
+                    ctx.disagree("overload reached at a call site inside a function body differs from the one reached among all emitted variants",
+                                 case, all_pick, real_pick)
+            k += 2
+    # ---- (g3)
+    srcs = [render_items(items) for items, _ in FWD_FIXED]
+    impl = C.run_impl("c02_impl.py", {"cases": [["decls", s_] for s_ in srcs]})
+    if ctx.exe:
+        for (items, sigs), src, r in zip(FWD_FIXED, srcs, impl):
+            st["fixed_forward_programs"] += 1
+            if "exc" in r:
+                ctx.disagree("fixed forward program rejected by the real transpiler", src[len(HEADER):], "accepted", r)
+                continue
+            lay = sketch_layout(r["cpp"])
+            real_defs = [(d["name"], d["ptypes"]) for d in lay["defs"]]
+            protos_w = [[d["name"], [enc_ctype(t) for t in d["ptypes"]]] for d in lay["protos"] if d["before_first_body"]]
+            defs_w = [[d["name"], [enc_ctype(t) for t in d["ptypes"]]] for d in lay["defs"]]
+            expect = [True if len(x) == 2 else x[2] for x in sigs]
+            where = [x[3] if len(x) > 3 else None for x in sigs]           # the emitted definition in whose body the call is written
+            sigs = [(x[0], x[1]) for x in sigs]
+            idx = [real_defs.index((w_[0], list(w_[1]))) if w_ is not None and (w_[0], list(w_[1])) in real_defs else None for w_ in where]
+            ms = ctx.model([[16, MODEL_CTX, wire_items(items), f, [enc_label(x) for x in sg]] for f, sg in sigs])
+            picks = ctx.model([[14, protos_w, defs_w, [0, i_] if i_ is not None else [1], f, [enc_aty(x) for x in sg]] for (f, sg), i_ in zip(sigs, idx)])
+            for (f, sg), m, pk, want, w_, i_ in zip(sigs, ms, picks, expect, where, idx):
+                if w_ is not None and i_ is None:
+                    ctx.disagree("fixed forward program: the caller variant the call is written in is not emitted", src[len(HEADER):], w_, real_defs)
+                    continue
+                if m == [2] or not m[0]:
+                    ctx.disagree("fixed forward program: the model does not parse it", src[len(HEADER):], m, "accepted")
+                    continue
+                emitted = [(C.wstr(d[0]), [dec_ctype(t) for t in d[1]]) for d in m[3]]
+                if emitted != real_defs:
+                    ctx.disagree("emission order of the function variants: Lang/FnProto.v emitted_decls vs the definitions of the real sketch",
+                                 src[len(HEADER):], emitted, real_defs)
+                    break
+                st["call_guard_true" if m[1] else "call_guard_false"] += 1
+                meant = None if not m[2] else [dec_ctype(t) for t in m[2][0]]
+                reached = None if not pk[1] else [dec_ctype(t) for t in pk[1][0]]
+                if bool(m[1]) != want:
+                    ctx.disagree("fixed forward program: call_guard differs from what the program was written for", {"script": src[len(HEADER):], "call": [f, sg]}, want, m)
+                elif not want:
+                    if reached is not None:
+                        ctx.disagree("fixed forward program: a call outside call_guard (ambiguous) resolves in the model", {"script": src[len(HEADER):], "call": [f, sg]}, None, reached)
+                elif meant != reached:
+                    ctx.fail("a call written in a function body emitted above its helper does not reach the variant the parser specialised for its signature "
+                             "(declarations of the real sketch, C++ overload resolution of Lang/FnProto.v)", {"script": src, "call": [f, sg]},
+                             {"meant": meant}, {"reached": reached, "prototypes": [(d["name"], d["ptypes"]) for d in lay["protos"]]}, key="variant-not-reached")
+    stats["overload_resolution"] = st
+    return st["gxx_cases"] + st["call_sites_in_bodies"] + st["definitions"] + st["call_guard_true"]
+
+
+def dec_ctype_list(w):
+    return [dec_ctype(t) for t in w]
+
+
+
+
 def run(ctx: C.Ctx):
     stats = {}
     n = part_a(ctx, stats)
     nb, samples_b = part_b(ctx, stats)
     nc, samples_c = part_c(ctx, stats)
-    nd, samples_d = part_d(ctx, stats)
+    nd, samples_d, sketches = part_d(ctx, stats)
     ne, samples_e = part_e(ctx, stats)
     nf, samples_f = part_f(ctx, stats)
+    ng = part_g(ctx, stats, sketches)
     ctx.coverage.update({
-        "evaluations": n + nb + nc + nd + ne + nf,
+        "evaluations": n + nb + nc + nd + ne + nf + ng,
         "distinct_nontrivial": stats.get("infer_distinct_nontrivial", 0) + stats.get("decl_distinct_nontrivial", 0) + stats.get("value_distinct_nontrivial", 0) + stats.get("function_distinct_nontrivial", 0) + stats.get("ctl_distinct_nontrivial", 0) + stats.get("fnbody_distinct_nontrivial", 0),
         "distribution": stats,
         "samples": samples_b[:1] + samples_c + samples_d + samples_e + samples_f,
@@ -1649,7 +1983,27 @@ def run(ctx: C.Ctx):
                  "augmented assignments) called under 2-3 signatures with boundary arguments: (f1) exec_block on the body from the bound "
                  "parameters along CPython's recorded path = CPython's stores and returned value; (f2) fn_guard (extracted) per call "
                  "signature in the parser state before the call; when every signature is inside, firmware vs CPython on the whole program. "
-                 "non-trivial for (e)/(f) = guard-accepted programs whose firmware/CPython comparison covers >= 4 (>= 2) values."),
+                 "non-trivial for (e)/(f) = guard-accepted programs whose firmware/CPython comparison covers >= 4 (>= 2) values.  "
+                 "(d) now also draws, for 40 % of its programs, defs in an order in which helpers are called ABOVE their definition "
+                 "(c02_fngen._program_fwd: caller / leaf, top / caller / leaf, caller / leaf / late helper calling the caller, caller / "
+                 "middle / leaf, caller / two leaves; callers reach the leaves with parameters, locals, int and bool literals and "
+                 "expressions, in returns, locals, if/else-hoisted locals and loops; every helper is requested under 2-3 signatures "
+                 "over int / float / bool directly from the top level and through the callers, so leaves get two, three or more "
+                 "variants and the call written in a body emitted above them needs a variant other than the first declared one "
+                 "(counted)); Checker.simulate_defs walks the defs in script order like parse() (a callee without a source is "
+                 "labelled int, its signature stays pending); 3 more fixed class representatives; call arguments may now be + - * "
+                 "expressions over int / float names and int literals (C++ type = label).  "
+                 "(g1) C++ overload resolution: Lang/FnProto.v pick (extracted) vs g++ itself (a SFINAE probe sketch printing the index "
+                 "of the selected candidate or -1) on every candidate set over int/float/bool/String of arity 1 with arguments "
+                 "int/float/bool/String/double, arity-2 sets of 1-3 candidates over int/float/bool with all 16 argument pairs incl. "
+                 "double (quick: all singletons + 45 sampled sets; thorough: all 129 + arity 3 samples), mixed arities.  "
+                 "(g2) every sketch emitted for oracle (d): prototype lines in front of the first body vs the prototype block "
+                 "Lang/FnProto.v emit_sketch writes for the real definitions (as sets; return types of prototype and definition "
+                 "agree); every call of a user function written inside a function body whose arguments are names / literals: the "
+                 "overload reached among the declarations REALLY visible there (extracted model on the real declarations) vs among "
+                 "all emitted variants - a difference that narrows an argument is a violation with the script and the call as replay.  "
+                 "(g3) fixed programs with callers above their helper: emission order of the variants and call_guard of the model "
+                 "(run_items) vs the real sketch; the meant variant is reached from the body the call is written in."),
         "guard": ("expressions: Lang/InferGuard.v guard (no string contagion onto a numeric name, numeric operands, `/` and `**` only with a float "
                   "operand, no unary minus on a bool label, and/or only on bool labels, conditional expression with equal or numeric labels, abs/min/max "
                   "on int/bool labels, uniform or numeric list elements, subscripts of list labels, no tuples). programs (theorem): flat_guard = every "
@@ -1679,14 +2033,23 @@ def run(ctx: C.Ctx):
                   "and store exactly the declared labels; a name hoisted out of an if / a loop ends its block with its declared label and has "
                   "no other C type in the shared promotion table (hoist_ok, promo_ok); return expressions have a scalar label; for function "
                   "bodies every parameter ends the body with its signature label and the body calls no user function (ucf_block). "
-                  "Reference semantics: no break/continue, the target of a for is unbound after its loop."),
+                  "Reference semantics: no break/continue, the target of a for is unbound after its loop.  "
+                  "Calls (theorem C02_call_site_reaches_the_specialised_variant_partial): call_guard of Lang/FnProto.v - the variant the alias "
+                  "table resolves the site's labels to is emitted and either has exactly the argument types or wins C++ overload resolution "
+                  "among all emitted variants of the name (F-C06-overload-ambiguous / F-C02-widened-variant-overwritten regions stay outside: "
+                  "c02_fngen.cxx_pick and overwritten_variants drop such programs).  Forward calls: no emitted variant was parsed while a "
+                  "callee whose variant does not return int had no source (F-C02-forward-call-result-typed-int; Checker.stale_forward_variants)."),
         "unmodelled": [
             "list comprehensions nested inside another operator (len([...]), [...][0], f([...])) stay EOther in Lang/PyAst.v and are labelled int by the "
             "model (the real code labels them list[...]); range() with 2 or 3 arguments and filtered comprehensions; only right-hand sides that ARE a "
             "(possibly nested) comprehension are modelled (Lang/InferComp.v) - the generators draw only those",
             "the constant environment (vars) that _to_c_expr brackets together with var_types around a comprehension target is C03's subject; here it "
             "only enters as an input of correspondence (a') (names bound to constants of every truthiness)",
-            "C++ overload resolution between emitted variants (harness/c02_fngen.cxx_pick keeps generated calls unambiguous); it is not part of the Gallina model",
+            "C++ name lookup and overload resolution are inside the model for the scalar parameter types (Lang/FnProto.v, validated against g++ by (g1)); "
+            "not modelled: argument expressions of class type other than String, string literals (const char* -> String), default arguments, "
+            "templates; the C++ type of an argument EXPRESSION is computed by the harness (names, literals) - oracle (g2) skips call sites with "
+            "other argument shapes, the value oracle (d) still executes them",
+            "the VALUE a forward-called helper returns is covered by oracle (d) only: the reference statement semantics has no user-function calls",
             "the VALUE theorems about function bodies (C02_function_body_covers_partial, C02_function_result_covers_partial) are stated for "
             "bodies that call no user function (ucf_block): the reference expression semantics (Lang/PySem.v) has no user-function calls; a "
             "helper calling a helper is inside the DECLARATION model (parse_function_step: on-demand variants, _refreshing_functions, fuel 24 "
@@ -1711,8 +2074,11 @@ def run(ctx: C.Ctx):
         "trusted_base": C.COMMON_TRUSTED + [
             "harness/gen/c02_infer.py (regenerates coq/Gen/InferTables.v: _BUILTIN_CALL_RETURN_TYPES, annotation labels; fail-closed)",
             "coq/Lang/PySem.v as the meaning of Python expressions (validated against CPython eval by harness/pysem_check.py)",
-            "harness/c02_fngen.py (generator, the abstract kind interpreter that keeps generated helper programs inside the guard, cxx_pick: a "
-            "three-rank model of C++ overload resolution used only to DROP generated programs)",
+            "harness/c02_fngen.py (generator, the abstract kind interpreter that keeps generated helper programs inside the guard incl. its "
+            "simulation of the def-time / on-demand parse order, cxx_pick: a three-rank model of C++ overload resolution used only to DROP "
+            "generated programs)",
+            "regex extraction of prototype lines, definitions, declared names and simple call sites from the emitted sketch "
+            "(harness/props/c02.py sketch_layout, call_sites); the SFINAE probe sketch of (g1) with g++ as the definition of C++ overload resolution",
             "harness/c02_ctl.py + harness/impl/c02_ctl_impl.py (generators; the instrumented rendering that makes CPython record its decisions and stores)",
             "harness/pyast_wire.py + label/program codecs in harness/props/c02.py; regex extraction of declaration lines from the emitted sketch (harness/impl/c02_impl.py cpp_decls)",
             "mock Arduino core (mock/) + g++ -O0 as 'the device'; CPython 3.12 + harness/impl/pyrun_impl.py as 'what Python holds'",
@@ -1722,6 +2088,6 @@ def run(ctx: C.Ctx):
     ctx.assumptions += [
         "floats are exact rationals in the models; generated float literals are dyadic with small denominators",
         "C int is unbounded in the models (no-overflow guard of C01); generated values stay far below 2^31",
-        "theorems are about the Gallina models Lang/Infer.v, Lang/Decl.v and Lang/StmtRef.v; their distance from parser.py / CPython is bounded by correspondences (a), (b), (e1), (f1)",
+        "theorems are about the Gallina models Lang/Infer.v, Lang/Decl.v, Lang/StmtRef.v and Lang/FnProto.v; their distance from parser.py / emitter.py / CPython / g++ is bounded by correspondences (a), (b), (e1), (f1), (g1)-(g3)",
         "a script's conditions and loop bounds may evaluate to anything: the covering theorems quantify over every oracle",
     ]
